@@ -12,7 +12,7 @@ import time
 from . import tlc
 
 ROOT = os.path.dirname(os.path.dirname(os.path.abspath(__file__)))
-EVIDENCE_DIR = os.path.join(ROOT, "evidence")
+EVIDENCE_DIR = os.environ.get("VERIF_EVIDENCE_DIR") or os.path.join(ROOT, "evidence")
 REPLAY_DIR = os.path.join(EVIDENCE_DIR, "replays")
 FINDINGS_FILE = os.path.join(ROOT, "known_findings.json")
 REPO = os.environ.get("VERIF_REPO", "/repo")
